@@ -207,6 +207,47 @@ def ns_sheets(full):
     return out
 
 
+# ---- declaration blocks: every sequence (length <= 3, thorough 4) over two names x important or not x a comment, with
+# position-dependent values so that it is observable which duplicate survives and where the last semicolon goes
+DECL_ALPHABET = [("color", ""), ("color", " !important"), ("top", ""), ("top", " !important"), ("c\\olor", ""),
+                 ("/*c*/", None), ("foo", "")]
+DECL_VALUES = {"color": ["red", "blue", "green", "black"], "top": ["0", "1px", "2px", "3px"],
+               "c\\olor": ["red", "blue", "green", "black"], "foo": ["a", "b", "c", "d"]}
+
+
+def decl_sheets(maxlen=3, per_sheet=12):
+    blocks = []
+    for n in range(1, maxlen + 1):
+        for seq in itertools.product(range(len(DECL_ALPHABET)), repeat=n):
+            parts = []
+            for pos, k in enumerate(seq):
+                name, prio = DECL_ALPHABET[k]
+                parts.append(name if prio is None else "%s: %s%s" % (name, DECL_VALUES[name][pos], prio))
+            blocks.append("; ".join(parts))
+    out = []
+    for i in range(0, len(blocks), per_sheet):
+        rules = [".d%d { %s }" % (j, b) for j, b in enumerate(blocks[i:i + per_sheet])]
+        out.append("\n".join(rules[:-4]) + "\n@media print { %s }\n@page { %s }\n@font-face { %s }" % (
+            " ".join(rules[-4:-2]), blocks[i:i + per_sheet][-2], blocks[i:i + per_sheet][-1]))
+    return out
+
+
+DECL_PREFS = ["keepAllProperties", "omitLastSemicolon", "validOnly", "keepComments", "defaultPropertyName",
+              "defaultPropertyPriority"]
+
+
+def factorial_rows(names, minified_too=True):
+    from css_parser.serialize import Preferences
+    d = Preferences().__dict__
+    rows = []
+    for bits in itertools.product([False, True], repeat=len(names)):
+        rows.append(({k: b for k, b in zip(names, bits) if d[k] != b}, False))
+    if minified_too:
+        for k in names:
+            rows.append(({k: not d[k]}, True))
+    return rows
+
+
 OMISSION_PREFS = ["keepUsedNamespaceRulesOnly", "keepEmptyRules", "keepComments", "validOnly", "keepAllProperties",
                   "keepUnknownAtRules"]
 
@@ -556,23 +597,30 @@ def serialize_with(sheet, prefs_dict, minified=False):
         css_parser.setSerializer(old)
 
 
-def e2e_one(text, prefs_dict, minified=False, want_text=False):
-    """the property on one (sheet, preferences) pair.  Returns None (holds), ('skip', why) or ('fail', what)."""
+def e2e_prepare(text):
+    """parse once, extract the object model, check that the DEFAULT serialisation round-trips (else: C03's subject)"""
     sheet = _parse(text)
     base = json.loads(json.dumps(extract(sheet)))
     st, b0 = serialize_with(sheet, {})
     if st != "ok":
-        return ("skip", "default serialisation raises (" + b0 + ")")
+        return sheet, base, ("skip", "default serialisation raises (" + b0 + ")")
+    try:
+        m0 = json.loads(json.dumps(strip_meta(extract(_parse(b0)))))
+    except Exception as e:  # noqa
+        return sheet, base, ("skip", "default output does not re-parse: %r" % (e,))
+    if m0 != json.loads(json.dumps(filter_model(_default_prefs(), base))):
+        return sheet, base, ("skip", "the default serialisation already does not round-trip (C03)")
+    return sheet, base, None
+
+
+def e2e_check(prep, prefs_dict, minified=False):
+    sheet, base, skip = prep
+    if skip:
+        return skip
     pd = dict(_default_prefs())
     if minified:
         pd.update(_minified_prefs())
     pd.update(prefs_dict)
-    try:
-        m0 = json.loads(json.dumps(strip_meta(extract(_parse(b0)))))
-    except Exception as e:  # noqa
-        return ("skip", "default output does not re-parse: %r" % (e,))
-    if m0 != json.loads(json.dumps(filter_model(_default_prefs(), base))):
-        return ("skip", "the default serialisation already does not round-trip (C03)")
     st, b = serialize_with(sheet, prefs_dict, minified)
     if st != "ok":
         return ("fail", "serialising raises " + b)
@@ -583,6 +631,7 @@ def e2e_one(text, prefs_dict, minified=False, want_text=False):
     except Exception as e:  # noqa
         return ("fail", "output does not re-parse: %s" % type(e).__name__)
     if pd.get("validOnly"):
+        base = json.loads(json.dumps(base))
         revalidate(sheet, base, prefs_dict, minified)
     exp = json.loads(json.dumps(filter_model(pd, base)))
     if m1 != exp:
@@ -591,6 +640,11 @@ def e2e_one(text, prefs_dict, minified=False, want_text=False):
                     + first_diff(exp, m1))
         return ("fail", "re-parsed model differs: " + first_diff(exp, m1))
     return None
+
+
+def e2e_one(text, prefs_dict, minified=False, want_text=False):
+    """the property on one (sheet, preferences) pair.  Returns None (holds), ('skip', why) or ('fail', what)."""
+    return e2e_check(e2e_prepare(text), prefs_dict, minified)
 
 
 def _squash(m):
@@ -638,9 +692,13 @@ def e2e_job(job):
     """(sheet text or bytes, [(prefs_dict, minified)]) -> list of (index, verdict)"""
     text, rows = job
     out = []
+    try:
+        prep = e2e_prepare(text)
+    except Exception as e:  # noqa
+        return [(0, ("fail", "oracle raised %s while reading the sheet: %s" % (type(e).__name__, str(e)[:120])))]
     for i, (pd, mini) in enumerate(rows):
         try:
-            v = e2e_one(text, pd, mini)
+            v = e2e_check(prep, pd, mini)
         except Exception as e:  # noqa   (the oracle itself must not hide anything)
             v = ("fail", "oracle raised %s: %s" % (type(e).__name__, str(e)[:120]))
         if v is not None:
@@ -990,13 +1048,14 @@ def run(ctx):
     samples = sample_sheets(20000 if thorough else 10000)
     numsheets = numeric_sheets(full=thorough)
     nssheets = ns_sheets(thorough)
-    sheets = [("corpus", t) for t in fixed] + [("num", t) for t in numsheets] + [("ns", t) for t in nssheets] + [("gen", t) for t in gen_sheets] + samples
+    declsheets = decl_sheets(4 if thorough else 3)
+    sheets = [("corpus", t) for t in fixed] + [("num", t) for t in numsheets] + [("ns", t) for t in nssheets] + [("decl", t) for t in declsheets] + [("gen", t) for t in gen_sheets] + samples
 
     # -- (b) skeleton correspondence on the same sheets
     s_rows = rows[:2] + [rows[i] for i in range(2, len(rows), 4 if thorough else 6)]
     sjobs = [(t, pd, mini) for name, t in sheets
              for pd, mini in (s_rows if name in ("gen", "corpus") else s_rows[:2] + s_rows[2::5])
-             if name != "ns" and (name != "num" or not thorough)]
+             if name not in ("ns", "decl") and (name != "num" or not thorough)]
     sres = ctx.pool_map(skeleton_case, sjobs, procs=6, chunksize=40)
     s_skipped, s_mism, s_done = 0, [], 0
     if binary:
@@ -1021,9 +1080,11 @@ def run(ctx):
     # the numeric matrix: every row in the quick tier (16 sheets); in the thorough tier (full unit product, ~150
     # sheets) every row that touches number spelling (omitLeadingZero / useMinified) plus the slice
     orows = omission_rows()
+    drows = factorial_rows(DECL_PREFS)
     numrows = rows if not thorough else small + [r for r in rows[2:] if r[1] or "omitLeadingZero" in r[0]]
     jobs = [(t, rows if name in ("gen", "corpus") else numrows if name == "num" else
-             (orows + (small if thorough else [])) if name == "ns" else small) for name, t in sheets]
+             (orows + (small if thorough else [])) if name == "ns" else drows if name == "decl" else small)
+            for name, t in sheets]
     t0 = time.time()
     eres = ctx.pool_map(e2e_job, jobs, procs=6, chunksize=1)
     evals = sum(len(j[1]) for j in jobs)
@@ -1033,7 +1094,7 @@ def run(ctx):
         for i, v in res:
             if v[0] == "skip":
                 skipped += 1
-                skip_sheets.add(name if name not in ("gen", "corpus", "num", "ns") else t[:60])
+                skip_sheets.add(name if name not in ("gen", "corpus", "num", "ns", "decl") else t[:60])
             else:
                 fails.append((t, job[1][i], v[1]))
     reported = {}
@@ -1091,12 +1152,13 @@ def run(ctx):
                 "preferences, random points, every single non-default value) x %d sheets (%d generated over the "
                 "grammar incl. random numeric shapes, %d numeric-matrix sheets [sign x integer part x fraction x unit], %d value-kind "
                 "sheets [colours, strings, urls, unicode-range, !important], %d namespace sheets [selector item kind as only user of a "
-                "prefix x top-level/@media x body kind] under the %d-row factorial of the omitting preferences, %d repository sample sheets) = %d oracle evaluations, %d skipped because the DEFAULT "
+                "prefix x top-level/@media x body kind] under the %d-row factorial of the omitting preferences, %d declaration-block sheets [every sequence over two names x "
+                "!important x comment x unknown name] under the %d-row factorial of the declaration preferences, %d repository sample sheets) = %d oracle evaluations, %d skipped because the DEFAULT "
                 "serialisation already does not round-trip; Out.append: %d random item sequences x random "
                 "preferences (%d raise in both, %d with >= 3 output elements); skeleton: %d (sheet, preferences) pairs "
                 "compared, %d out of the skeleton's scope; non-trivial = not skipped / >= 3 output elements" % (
                     len(rows), len(arr), len(space), len(sheets), len(gen_sheets), len(numsheets), len(KIND_SHEETS),
-                    len(nssheets), len(orows), len(samples), evals, skipped,
+                    len(nssheets), len(orows), len(declsheets), len(drows), len(samples), evals, skipped,
                     len(acases), a_crash, a_nontrivial, s_done, s_skipped),
         "samples": [{"prefs": rows[5][0], "sheet": gen_sheets[0][:200]},
                     {"append_case": acases[-1]}, {"skipped_sheets": sorted(skip_sheets)[:8]}],
